@@ -151,8 +151,9 @@ class Engine:
         if skip == "*" or name in skip or self.drv is None:
             return
         orc = list(self.drv.last_oracle)
-        size = len(sexp.enc(args)) + sum(len(r) * 2 + sum(len(a) * 2 for a in ar) for _, ar, r in orc)
-        if size > 3000 or len(orc) > 24:
+        size = len(sexp.enc(args)) + len(sexp.enc(model_v)) + \
+            sum(len(r) * 2 + sum(len(a) * 2 for a in ar) for _, ar, r in orc)
+        if size > 4000 or len(orc) > 24:
             return
         per_fn = self.vm_seen.get(name, 0)
         limit = 6 if self.tier == "quick" else 40
@@ -204,8 +205,8 @@ class Engine:
         except Exception as e:  # timeout
             return len(self.vm_cases), [], f"skipped: coqc did not finish ({type(e).__name__})"
         if rc != 0:
-            if "inconsistent assumptions" in out:
-                return len(self.vm_cases), [], "skipped: stale .vo during concurrent rebuild"
+            if "inconsistent assumptions" in out or "Stack overflow" in out or "Out of memory" in out:
+                return len(self.vm_cases), [], "skipped: " + out.strip().splitlines()[-1][:120]
             return len(self.vm_cases), ["selfcheck.v did not compile: " + out[-400:]], "error"
         import re as _re
         m = _re.search(r"=\s*\[([^\]]*)\]", out)
@@ -372,6 +373,10 @@ class Engine:
             # 3b. extraction self-check (same cases by vm_compute inside Coq)
             try:
                 self.vm_n, vm_fail, self.vm_note = self.run_selfcheck()
+                if vm_fail:
+                    # never raise an alarm on a stale .vo: rebuild the dispatcher and evaluate once more
+                    build.coq_make([f"Dispatch/D{pid}.vo"])
+                    self.vm_n, vm_fail, self.vm_note = self.run_selfcheck()
             except Exception as e:  # noqa
                 self.vm_n, vm_fail, self.vm_note = 0, [], "skipped: " + repr(e)[:200]
             for msg in vm_fail[:5]:
